@@ -127,7 +127,11 @@ def gen(tier, rng):
                 resets = [("NEW", [sess.E("NEW"), "R5000"]),
                           ("delete DATA lines ; NEW", [sess.E(n) for n in data_nums] + [sess.E("NEW"), "R5000"]),
                           ("delete DATA lines ; CLEAR ; delete the rest", [sess.E(n) for n in data_nums] + [sess.E("CLEAR"), "R5000"] + [sess.E(n) for n in other_nums]),
-                          ("delete DATA lines ; PRINT ; NEW", [sess.E(n) for n in data_nums] + [sess.E('PRINT "x";'), "R5000", sess.E("NEW"), "R5000"])]
+                          ("delete DATA lines ; PRINT ; NEW", [sess.E(n) for n in data_nums] + [sess.E('PRINT "x";'), "R5000", sess.E("NEW"), "R5000"]),
+                          # a direct line that fails to compile or link, and then straight on to typing the next program
+                          ("NEW ; GOTO 999 (fails)", [sess.E("NEW"), "R5000", sess.E("GOTO 999"), "R5000"]),
+                          ("NEW ; PRINT ) (fails)", [sess.E("NEW"), "R5000", sess.E("PRINT )"), "R5000"]),
+                          ("GOSUB 500 (fails) ; NEW", [sess.E("GOSUB 500"), "R5000", sess.E("NEW"), "R5000"])]
                 for rname, rcalls in resets:
                     calls = ["R5000"] + [sess.E(l) for l in pre] + [sess.E("RUN"), "R5000"] + rcalls + typeit
                     cases.append(Case(sess.session(calls + final_run(prog, [], final)),
